@@ -2,6 +2,7 @@ package main
 
 import (
 	"bytes"
+	"runtime"
 	"fmt"
 	"html/template"
 	"io"
@@ -34,6 +35,7 @@ var robustCorpus = []string{
 	"x\n  goroutine 1234567890123456789 [running]:\nmain.f()\n\t/a.go:1\n\ngoroutine 2 [select]:\nmain.g()\n\t/b.go:2\n",
 	"goroutine 1 [running]:\nmain.f()\n\t/a.go:1\n\ngoroutine 1234567890123456789 [running]:\nmain.g()\n\t/b.go:2\nend\n",
 	"goroutine 123456789012345678 [running]:\nmain.f()\n\t/a.go:1234567890123456789\n",
+	"goroutine 1 [running]:\nmain.f(0x1}})\n\t/a.go:1\n",
 }
 
 // renderAll aggregates at every level and renders as text and HTML.
@@ -103,8 +105,12 @@ func mutateStream(r *Rng, s string) string {
 				eol, l = "\n", l[:len(l)-1]
 			}
 			lines[i] = strings.ReplaceAll(mutateLine(r, l), "\n", "") + eol
-		default: // splice an adversarial line
-			lines = append(lines[:i], append([]string{adversarialLines[r.Intn(len(adversarialLines))] + "\n"}, lines[i:]...)...)
+		default: // splice an adversarial line, now and then one about as long as the read buffer
+			l := adversarialLines[r.Intn(len(adversarialLines))]
+			if r.Chance(1, 6) {
+				l = strings.Repeat("a", 8000+r.Intn(9000))
+			}
+			lines = append(lines[:i], append([]string{l + "\n"}, lines[i:]...)...)
 		}
 		if len(lines) == 0 {
 			break
@@ -112,6 +118,8 @@ func mutateStream(r *Rng, s string) string {
 	}
 	return strings.Join(lines, "")
 }
+
+var goroot = strings.ReplaceAll(runtime.GOROOT(), "\\", "/")
 
 func runC03(prop string, res *Result, pool *DrvPool, r *Rng) {
 	res.Rule = "corpus of past crashers, then grammar-aware mutants of generated dumps and race reports (delete/duplicate/swap/splice lines, truncate, corrupt characters incl. invalid UTF-8, escapes, brackets, numbers) and every line-kind sequence up to a bounded length; each input is scanned (repeatedly, with the resume protocol), every snapshot aggregated at all levels and rendered as text and HTML, and run through the command's process(); all under recover with a time bound; non-trivial = the mutant reaches a non-looking state; distinct by hash of the input"
@@ -136,7 +144,11 @@ func runC03(prop string, res *Result, pool *DrvPool, r *Rng) {
 			if got.Snap != nil {
 				reached = true
 				rd := &SchedReader{data: []byte(in), final: io.EOF}
-				s, _, _ := stack.ScanSnapshot(rd, io.Discard, &stack.Opts{NameArguments: true})
+				var s *stack.Snapshot
+				if p := catch(func() { s, _, _ = stack.ScanSnapshot(rd, io.Discard, &stack.Opts{NameArguments: true}) }); p != nil {
+					res.Violation(Finding{Stream: "scan", What: fmt.Sprintf("%s: ScanSnapshot panicked: %v", name, p), Op: cop})
+					return
+				}
 				if s != nil {
 					var what string
 					var p interface{}
@@ -149,6 +161,15 @@ func runC03(prop string, res *Result, pool *DrvPool, r *Rng) {
 			}
 			if call == 0 || call%4 == 1 {
 				modelScan(pool, res, cop, got, nil)
+			}
+			if call == 0 {
+				// the default options (path guessing and source analysis on)
+				if p := catch(func() {
+					stack.ScanSnapshot(strings.NewReader(in), io.Discard, &stack.Opts{LocalGOROOT: goroot, LocalGOPATHs: []string{"/nonexistent/gp1", "/nonexistent/gopath2"}, NameArguments: true, GuessPaths: true, AnalyzeSources: true})
+				}); p != nil {
+					res.Violation(Finding{Stream: "scan", What: fmt.Sprintf("%s: ScanSnapshot with path guessing and source analysis on panicked: %v", name, p), Op: cop})
+					return
+				}
 			}
 			if got.Err != "" {
 				break
@@ -221,7 +242,7 @@ func runC03(prop string, res *Result, pool *DrvPool, r *Rng) {
 	for k := 0; k < 3; k++ {
 		in := strings.Repeat(unit, 200<<k)
 		st := time.Now()
-		stack.ScanSnapshot(bytes.NewReader([]byte(in)), io.Discard, &stack.Opts{})
+		catch(func() { stack.ScanSnapshot(bytes.NewReader([]byte(in)), io.Discard, &stack.Opts{}) })
 		t[k] = time.Since(st)
 	}
 	res.Extra["scan_time_200_400_800_units_ms"] = []int64{t[0].Milliseconds(), t[1].Milliseconds(), t[2].Milliseconds()}
